@@ -252,6 +252,16 @@ def witness_rows():
                 num = _digits(v, o)
             cat = 'window' if abs(v) > 100 else ('negative' if v < 0 else 'small')
             rows.append((f'{o}2{d}', o, d, num, None, cat))
+        if o == 'HEX':
+            # letter case of the digits, also of the digit that carries the sign
+            for v in (-1, -2, -5, -(bound // 2) if bound > 4 else -3, -bound, 255, 171, bound - 1):
+                up = _digits(v, 'HEX')
+                for spelt in {up.lower(), up[:1].lower() + up[1:], up[:1] + up[1:].lower(), up.swapcase()} - {up}:
+                    rows.append((f'{o}2{d}', o, d, spelt, None, 'negative' if v < 0 else 'small'))
+        if o != 'DEC':
+            # more than ten characters are too many, whatever the characters are
+            for long in ('0' * 10 + '1', '0' * 11, '0' * 9 + '11', '0' * 30 + '1'):
+                rows.append((f'{o}2{d}', o, d, long, None, 'guards'))
         if d != 'DEC':
             sample = 5 if o == 'DEC' else _digits(5, o)
             neg = -5 if o == 'DEC' else _digits(-5, o)
